@@ -1,14 +1,24 @@
 import BeyondVerif.Model.Cov
 
 /-!
-# C14 — kernel-checked counter-witness to full path independence
+# C14 — kernel-checked witness for the regression guarded by the oracle
 
-The generic model of `Cov` (Model/Cov.lean), instantiated with 2×2 integer matrices: two frames
-`false` (the frame of the state) and `true`, related by a quarter turn; `toLocal` is the rotation
-that takes the (unit, axis-aligned) state vector onto the first axis — the planar analogue of QSW,
-TNW being QSW turned by a further quarter turn.  Every hypothesis of the theorems of Props/C14
-holds for this environment (`laws`, `loc_orth`, `loc_equivariant` below), yet `[frame, QSW]` and
-`[QSW]` give different matrices: the private copy has been re-framed, `_orb_frame` has not.
+History.  Until /repo commit d229088 full path independence was FALSE of the code: the `Cov.frame`
+setter re-framed its private state copy while `_orb_frame` kept naming the original frame, so
+`[frame, QSW]` and `[QSW]` gave different matrices.  The theorems `local_after_reframe_differs`
+and `frame_after_local_recovers` of this file were then statements about the model of the code
+(`run`).  The setter has been repaired; the model of the code (`run`, Model/Cov.lean) no longer
+re-frames, `BeyondVerif.C14.path_independent` is proved in full, and the former witnesses are
+restated about `runOld` — the model of the setter *as it was* — so that what the oracle family
+`path-dependent:local-after-reframe` would report if the defect returned stays documented and
+kernel-checked.  `current_model_path_independent` (formerly `fixed_model_agrees`) is the same
+experiment on the model of the current code.
+
+The environment: the generic model instantiated with 2×2 integer matrices: two frames `false`
+(the frame of the state) and `true`, related by a quarter turn; `toLocal` is the rotation that
+takes the (unit, axis-aligned) state vector onto the first axis — the planar analogue of QSW, TNW
+being QSW turned by a further quarter turn.  Every hypothesis of the theorems of Props/C14 holds
+for this environment (`laws`, `loc_orth`, `loc_equivariant` below).
 -/
 namespace BeyondVerif.C14W
 open BeyondVerif.Cov
@@ -62,25 +72,31 @@ theorem loc_orth : ∀ g, ((toLocal .qsw ((conv false g).apply x0)).tr).mul (toL
 theorem loc_equivariant : ∀ g, toLocal .qsw ((conv false g).apply x0) = (toLocal .qsw x0).mul (conv false g).tr ∧
     toLocal .tnw ((conv false g).apply x0) = (toLocal .tnw x0).mul (conv false g).tr := by decide
 
-/-- **Counter-witness**: visiting the other frame first changes the QSW (and TNW) covariance. -/
-theorem local_after_reframe_differs :
-    (run W start [.frame true, .loc .qsw]).mat = ⟨1, 0, 0, 2⟩ ∧
-    (run W start [.loc .qsw]).mat = ⟨2, 0, 0, 1⟩ ∧
-    (run W start [.frame true, .loc .tnw]).mat ≠ (run W start [.loc .tnw]).mat ∧
-    -- the bookkeeping that causes it: `_orb_frame` still names `false`, the private copy lives in `true`
-    (run W start [.frame true]).orbFrame = false ∧ (run W start [.frame true]).orbCur = true ∧
-    (run W start [.frame true]).orb = (0, -1) := by decide
+/-- **The old setter (before d229088) was path dependent**: visiting the other frame first changed
+the QSW (and TNW) covariance. -/
+theorem old_setter_local_after_reframe_differs :
+    (runOld W start [.frame true, .loc .qsw]).mat = ⟨1, 0, 0, 2⟩ ∧
+    (runOld W start [.loc .qsw]).mat = ⟨2, 0, 0, 1⟩ ∧
+    (runOld W start [.frame true, .loc .tnw]).mat ≠ (runOld W start [.loc .tnw]).mat ∧
+    -- the bookkeeping that caused it: `_orb_frame` still named `false`, the private copy lived in `true`
+    (runOld W start [.frame true]).orbFrame = false ∧ (runOld W start [.frame true]).orbCur = true ∧
+    (runOld W start [.frame true]).orb = (0, -1) := by decide
 
-/-- the error is transient: a following frame target is right again, as `path_characterised` says -/
-theorem frame_after_local_recovers :
-    (run W start [.frame true, .loc .qsw, .frame false]).mat = C0 ∧
-    (run W start [.frame true, .loc .qsw, .frame true]).mat = (run W start [.frame true]).mat := by decide
+/-- with the old setter the error was transient: a following frame target was right again -/
+theorem old_setter_frame_after_local_recovers :
+    (runOld W start [.frame true, .loc .qsw, .frame false]).mat = C0 ∧
+    (runOld W start [.frame true, .loc .qsw, .frame true]).mat = (runOld W start [.frame true]).mat := by decide
 
-/-- the repaired setter (private copy never re-framed) agrees with the single hop on the same sequences -/
-theorem fixed_model_agrees :
-    (runFixed W start [.frame true, .loc .qsw]).mat = (runFixed W start [.loc .qsw]).mat ∧
-    (runFixed W start [.frame true, .loc .tnw]).mat = (runFixed W start [.loc .tnw]).mat ∧
-    (runFixed W start [.loc .qsw]).mat = (run W start [.loc .qsw]).mat ∧
-    (runFixed W start [.frame true, .loc .tnw, .frame false]).mat = C0 := by decide
+/-- **The model of the current code is path independent on the same sequences**, never moves its
+bookkeeping, and differs from the old setter exactly on the local-after-reframe sequence. -/
+theorem current_model_path_independent :
+    (run W start [.frame true, .loc .qsw]).mat = (run W start [.loc .qsw]).mat ∧
+    (run W start [.frame true, .loc .tnw]).mat = (run W start [.loc .tnw]).mat ∧
+    (run W start [.frame true, .loc .tnw, .frame false]).mat = C0 ∧
+    (run W start [.frame true]).orbFrame = false ∧ (run W start [.frame true]).orbCur = false ∧
+    (run W start [.frame true]).orb = x0 ∧
+    (run W start [.loc .qsw]).mat = (runOld W start [.loc .qsw]).mat ∧
+    (run W start [.frame true]).mat = (runOld W start [.frame true]).mat ∧
+    (run W start [.frame true, .loc .qsw]).mat ≠ (runOld W start [.frame true, .loc .qsw]).mat := by decide
 
 end BeyondVerif.C14W
